@@ -10,7 +10,7 @@
      |result| <= |renc| + 23 * fuel + |suf|,
    and with the initial fuel S (length tgt):   |enc| <= 24 * |tgt| + 23.  *)
 From Coq Require Import Lia ZifyBool ZifyN ZifyNat.
-From Ragc Require Import LZ_base LZ_int.
+From Ragc Require Import LZ_base LZ_int LZ_main.
 
 (* ---------------------------------------------------------------- decimal lengths *)
 Lemma digits_go_len f : forall x k acc, x < 10 ^ k -> lenN (digits_go f x acc) <= k + lenN acc.
@@ -113,6 +113,11 @@ Proof.
   destruct (_ && _); [|lia]. unfold wrap32, two32. apply N.mod_lt. lia.
 Qed.
 
+Lemma add_u32_some_lt a b t : add_u32 a b = Some t -> t < 4294967296.
+Proof.
+  unfold add_u32, two32. destruct (a + b <? 4294967296) eqn:E; [|discriminate]. intros H. injection H as <-. lia.
+Qed.
+
 (* ---------------------------------------------------------------- the loop *)
 Section Loop.
   Variable hash : N -> N.
@@ -208,8 +213,7 @@ Section Loop.
     destruct (add_u32 lb lf) as [total|] eqn:Et; [|discriminate].
     destruct (sub_u32 mp lb) as [amp|]; [|discriminate].
     cbv zeta.
-    assert (Ht : total < 4294967296).
-    { unfold add_u32, two32 in Et. destruct (_ <? _) eqn:E; [|discriminate]. inversion Et. lia. }
+    assert (Ht : total < 4294967296) by (eapply add_u32_some_lt; eauto).
     set (lte := if (i1 + total =? tlen) && (mp + lf =? ref_len st) then None else Some total).
     assert (Hlte : match lte with Some l => l < 4294967296 | None => True end).
     { unfold lte. destruct (_ && _); auto. }
@@ -274,3 +278,15 @@ Proof. intros mml rf tgt enc. apply encode_with_len_proof. Qed.
 Theorem encode_len_u32_proof : forall mml rf tgt enc,
   lenN rf + lenN tgt + mml < 2147483648 -> encode mml rf tgt = Ok enc -> lenN enc < 68719476736.
 Proof. intros mml rf tgt enc Hs He. apply encode_len_proof in He. lia. Qed.
+
+(* in the domain of lz_roundtrip: the encoder returns, its output decodes to the target and obeys the bound *)
+Theorem encode_len_in_domain_proof : forall mml rf tgt,
+  4 <= mml -> tgt <> [] -> Forall sym_ok tgt -> lenN rf + lenN tgt + mml < 2147483648 ->
+  exists enc, encode mml rf tgt = Ok enc /\ decode_full mml rf enc = Ok tgt /\
+              lenN enc <= 24 * lenN tgt + 23 /\ lenN enc < 68719476736.
+Proof.
+  intros mml rf tgt H1 H2 H3 H4. destruct (lz_roundtrip_proof mml rf tgt H1 H2 H3 H4) as (enc & He & Hd).
+  exists enc. split; [exact He|]. split; [exact Hd|]. split.
+  - exact (encode_len_proof _ _ _ _ He).
+  - exact (encode_len_u32_proof _ _ _ _ H4 He).
+Qed.
